@@ -836,6 +836,7 @@ def rec_shapes():
   S['reach_max_multibody'] = ([R('Rch', x, value=Aggr('Max', N(1)), body=(E(x, x),)), R('Rch', y, value=Aggr('Max', Bin('+', Call('Rch', x), N(0))), body=(E(x, y),))], ['Rch'], 'agg', 'lin')
   S['count_paths'] = ([R('C', x, y, value=Aggr('Sum', N(1)), body=(E(x, y),)), R('C', x, z, value=Aggr('Sum', V('c')), body=(Lit('C', x, y, logica_value=V('c')), E(y, z), Cmp('<', y, z)))], ['C'], 'agg', 'lin')
   S['through_functor'] = ([D('T', x, y, body=(E(x, y),)), D('T', x, z, body=(E(x, y), Lit('T', y, z))), R('E2', y, x, body=(E(x, y),)), lang.Functor('M', 'T', (('E', 'E2'),))], ['T', 'M'], 'set', 'lin')
+  S['ring3_through_functor'] = (list(S['ring3'][0]) + [R('E2', y, x, body=(E(x, y),)), lang.Functor('M', 'P', (('E', 'E2'),))], ['P', 'M'], 'set', 'lin')
   S['consumer_of_recursive'] = ([D('T', x, y, body=(E(x, y),)), D('T', x, z, body=(E(x, y), Lit('T', y, z))), R('Cnt', x, Aggr('Count', y), body=(Lit('T', x, y),), distinct=True),
                                  R('Neg', x, body=(E(x, y), Not(Lit('T', y, x))))], ['Cnt', 'Neg'], 'agg', 'lin')
   S['tc_left_bag'] = ([R('T', x, y, body=(E(x, y),)), R('T', x, z, body=(Lit('T', x, y), E(y, z)))], ['T'], 'bag', 'lin')
@@ -869,6 +870,9 @@ def chain_graphs(depth):
   for n in sorted({max(2, depth - 1), depth, depth + 1, depth + 2, depth + 3}):
     out.append([(i, i + 1) for i in range(1, n)])
     out.append([(i, i + 1) for i in range(1, n)] + [(n, 1)])
+  # a long cycle with a self-loop: shapes whose base case is E(x, x) derive nothing on the graphs above
+  for n in (depth + 1, depth + 4):
+    out.append([(i, i + 1) for i in range(1, n)] + [(n, 1), (1, 1)])
   return out
 
 
